@@ -147,6 +147,19 @@ var c01Constructs = []c01Construct{
 		delete(d, "x")
 		return map[string]string{"page.vuego": `<i v-if="none">n</i><template v-else-if="t" include="comp.vuego" :x="y"></template>`, "comp.vuego": "<section>" + s + "</section>"}, d
 	}},
+	// the component file has FRONT-MATTER of its own (merged over the props it was included with)
+	{"include-bound-fm", func(s string, v any) (map[string]string, map[string]any) {
+		d := c01Data(v)
+		d["y"] = v
+		delete(d, "x")
+		return map[string]string{"page.vuego": `<template include="comp.vuego" :x="y"></template>`, "comp.vuego": "---\nheading: H\nkk: fm-kv\n---\n<section>" + s + "</section>"}, d
+	}},
+	{"include-interp-fm-looped", func(s string, v any) (map[string]string, map[string]any) {
+		d := c01Data(v)
+		d["y"] = v
+		delete(d, "x")
+		return map[string]string{"page.vuego": `<div v-for="r in rows"><template include="comp.vuego" x="{{ r.x }}"></template></div>`, "comp.vuego": "---\nheading: \"{{ not a template }}\"\n---\n<section>" + s + "</section>"}, d
+	}},
 	{"include-wrapped", func(s string, v any) (map[string]string, map[string]any) {
 		d := c01Data(v)
 		d["y"] = v
